@@ -123,7 +123,7 @@ func replaceArgumentInEnvelopes(value *ast.AssignmentValue, argumentName string,
 //   - it doesn't have exactly one argument
 //   - the argument is not an array
 func ArrayToAppendAction() RewriteAction {
-	return func(_ ast.Schemas, _ ast.Builder, option ast.Option) []ast.Option {
+	return func(schemas ast.Schemas, _ ast.Builder, option ast.Option) []ast.Option {
 		if len(option.Args) != 1 || !option.Args[0].Type.IsArray() || len(option.Assignments) == 0 {
 			return []ast.Option{option}
 		}
@@ -146,6 +146,12 @@ func ArrayToAppendAction() RewriteAction {
 		// the option already appends or indexes (the rule was applied before): the
 		// argument is not the whole list
 		if option.Assignments[target].Method != ast.DirectAssignment {
+			return []ast.Option{option}
+		}
+
+		// the argument is a list, what it is assigned to has to be one too: after
+		// disjunction_as_options the target can be a union (`string | [...string]`)
+		if targetPath := option.Assignments[target].Path; len(targetPath) == 0 || !schemas.ResolveToType(targetPath.Last().Type).IsArray() {
 			return []ast.Option{option}
 		}
 
@@ -201,7 +207,7 @@ func ArrayToAppendAction() RewriteAction {
 //   - it doesn't have exactly one argument
 //   - the argument is not a map
 func MapToIndexAction() RewriteAction {
-	return func(_ ast.Schemas, _ ast.Builder, option ast.Option) []ast.Option {
+	return func(schemas ast.Schemas, _ ast.Builder, option ast.Option) []ast.Option {
 		if len(option.Args) != 1 || !option.Args[0].Type.IsMap() || len(option.Assignments) == 0 {
 			return []ast.Option{option}
 		}
@@ -231,6 +237,11 @@ func MapToIndexAction() RewriteAction {
 		// the option already appends or indexes (another rule was applied before): the
 		// argument is not the whole map
 		if option.Assignments[target].Method != ast.DirectAssignment {
+			return []ast.Option{option}
+		}
+
+		// the argument is a map, what it is assigned to has to be one too
+		if targetPath := option.Assignments[target].Path; len(targetPath) == 0 || !schemas.ResolveToType(targetPath.Last().Type).IsMap() {
 			return []ast.Option{option}
 		}
 
